@@ -138,7 +138,8 @@ OppositeOf(t, e) == CHOOSE k \in TriSet(t) : k \notin e
 \* the line through edge e has every vertex on one closed side
 HullEdge(V, e) ==
     LET a == CHOOSE k \in e : TRUE  b == CHOOSE k \in e : k # a
-    IN \A u, w \in VIdx(V) : Sign(Orient(Vx(V, a), Vx(V, b), Vx(V, u))) * Sign(Orient(Vx(V, a), Vx(V, b), Vx(V, w))) >= 0
+    IN ~ ( /\ \E u \in VIdx(V) : Orient(Vx(V, a), Vx(V, b), Vx(V, u)) > 0
+           /\ \E w \in VIdx(V) : Orient(Vx(V, a), Vx(V, b), Vx(V, w)) < 0 )
 \* every edge is either on the hull and used once, or shared by exactly two simplices lying on opposite sides
 TilesHull(V, T) ==
     \A t \in T : \A e \in EdgesOf(t) :
